@@ -338,6 +338,14 @@ package object
 //@ ensures[C10.recv.closed] selindex() == 1 && !selok() ==> result0 == Nil && result1 == nil
 //@ ensures[C10.recv.cancel] selindex() == 0 ==> result0 == nil
 
+// wait(): once the thread is done, Wait answers the object the spawned call returned - that very object, not a copy or a
+// re-wrapped one (seed C10h re-wrapped an error result with NewError, which marks it as raised: a call that RETURNED an
+// error value made the waiting code fail).
+//@ func (*Thread).Wait
+//@ props C10
+//@ requires t != nil && ctx != nil
+//@ ensures[C10.wait.result] selindex() == 1 ==> result == t.result
+
 // C11: a module's attribute tables and a builtin's back-reference to its module (__module__) are set up together by
 // the listed constructors (NewBuiltinsModule points every builtin it is given at the new module) and changed only
 // by Override / UseGlobals; any other code that builds or rewires a module must be added here with its own
